@@ -557,6 +557,55 @@ Definition monitor_s (i : sinput) (o : sout) : bool :=
   | _, _ => true
   end.
 
+(* ---- completeness, on the implementation's output, for runs marked as honest ----
+   An honest run: a client holding the secret key of [k], whose exporter gave it [ckm]
+   (None: it cannot export), meets the server.  What makes a run honest is checked on the
+   input, not trusted: the header is absent exactly when the client has no material, and
+   otherwise decodes to a claim of k with the suffix of ckm and a signature that verifies
+   under k over the first 16 bytes of ckm; the first frame the client sends is a ClientAuth
+   of k whose signature verifies over THIS session's challenge; and the first write (the
+   challenge, if one is needed) is not made to fail.  Then the property's completeness
+   clause must hold of the OBSERVED result: authenticated as k — by key material when the
+   relay exports the same bytes for context k, by the challenge when the client or the
+   relay has no material or the suffixes differ. *)
+Definition km_header_of (i : sinput) : option (bytes * bytes * bytes) :=
+  match s_header i with
+  | Some h => match b64_decode h with Some bs => pc_km_auth bs | None => None end
+  | None => None
+  end.
+
+Definition first_write_ok (i : sinput) : bool :=
+  match s_wfaults i with [] => true | c :: _ => c =? 0 end.
+
+Definition honest_pre (i : sinput) (k : bytes) (ckm : option bytes) : bool :=
+  match ckm with
+  | None => match s_header i with None => true | Some _ => false end
+  | Some km =>
+      match km_header_of i with
+      | Some (k', sg, suf) =>
+          bytes_eqb k' k && bytes_eqb suf (skipn 16 km) && verify P k (firstn 16 km) sg
+      | None => false
+      end
+  end && ch_evidence i k && first_write_ok i.
+
+Definition expected_mech (i : sinput) (k : bytes) (ckm : option bytes) (m : N) : bool :=
+  match ckm, assoc (s_kmt i) k (s_kmd i) with
+  | Some a, Some b =>
+      if bytes_eqb a b then m =? MECH_KM                         (* both export the same material *)
+      else if bytes_eqb (skipn 16 a) (skipn 16 b)
+      then (m =? MECH_KM) || (m =? MECH_CH)                      (* only the signed halves differ *)
+      else m =? MECH_CH                                          (* the suffixes differ *)
+  | _, _ => m =? MECH_CH                                         (* client or relay cannot export *)
+  end.
+
+Definition honest_ok (i : sinput) (k : bytes) (ckm : option bytes) (o : sout) : bool :=
+  if honest_pre i k ckm then
+    match so_res o with
+    | Ok (k', m) => bytes_eqb k' k && expected_mech i k ckm m
+    | _ => false
+    end
+  else true.
+
 (* the client reports success only after reading a ServerConfirmsAuth frame *)
 Definition monitor_c (i : cinput) (o : cout) : bool :=
   match co_res o with
@@ -612,7 +661,12 @@ Definition tag_c (i : cinput) : N :=
 End WithPrims.
 
 (* --------------------------------------------------------------- judge *)
-Inductive input := SCase (o : oracle) (i : sinput) | CCase (o : oracle) (i : cinput).
+(* SHonest: a server case that the generator marks as an honest run of the client with
+   public key [k] and client-side material [ckm]; run and compared like SCase, the monitor
+   additionally evaluates the completeness clause [honest_ok]. *)
+Inductive input :=
+| SCase (o : oracle) (i : sinput) | CCase (o : oracle) (i : cinput)
+| SHonest (o : oracle) (i : sinput) (k : bytes) (ckm : option bytes).
 Inductive output := SOut (o : sout) | COut (o : cout).
 
 Definition pair_eqb (a b : bytes * bytes) : bool := bytes_eqb (fst a) (fst b) && bytes_eqb (snd a) (snd b).
@@ -640,6 +694,7 @@ Definition agree (i : input) (o : output) : bool :=
   match i, o with
   | SCase t s, SOut x => sout_eqb (server (table_prims t false) s) x && sout_eqb (server (table_prims t true) s) x
   | CCase t c, COut x => cout_eqb (client (table_prims t false) c) x && cout_eqb (client (table_prims t true) c) x
+  | SHonest t s _ _, SOut x => sout_eqb (server (table_prims t false) s) x && sout_eqb (server (table_prims t true) s) x
   | _, _ => false
   end.
 
@@ -647,6 +702,8 @@ Definition monitor (i : input) (o : output) : bool :=
   match i, o with
   | SCase t s, SOut x => monitor_s (table_prims t false) s x
   | CCase t c, COut x => monitor_c c x
+  | SHonest t s k ckm, SOut x =>
+      monitor_s (table_prims t false) s x && honest_ok (table_prims t false) s k ckm x
   | _, _ => false
   end.
 
@@ -656,12 +713,14 @@ Definition tag (i : input) : N :=
   match i with
   | SCase t s => tag_s (table_prims t false) s
   | CCase t c => tag_c (table_prims t false) c
+  | SHonest t s _ _ => tag_s (table_prims t false) s
   end.
 
 Definition model (i : input) : output :=
   match i with
   | SCase t s => SOut (server (table_prims t false) s)
   | CCase t c => COut (client (table_prims t false) c)
+  | SHonest t s _ _ => SOut (server (table_prims t false) s)
   end.
 
 Definition judge (i : input) (o : output) : bool * bool * N * N :=
